@@ -136,6 +136,9 @@ func racePass(c *Ctx, id string) {
 // TraceScenario prints the trace of one schedule (debugging aid and replay helper).
 func TraceScenario(id, name string, choices []int) {
 	gen := raceScenarios[id]
+	if id == "C10" {
+		gen = c10Scenarios // C10 has no free-running pass of its own but its scenarios can be traced
+	}
 	if gen == nil {
 		fmt.Println("no scenarios for", id)
 		return
@@ -145,6 +148,13 @@ func TraceScenario(id, name string, choices []int) {
 			continue
 		}
 		x, sys := sc.runOnce(choices)
+		defer func() {
+			if sc.Check != nil {
+				for _, f := range sc.Check(sys, x) {
+					fmt.Printf("--- oracle %s: %s\n", f.Oracle, f.Note)
+				}
+			}
+		}()
 		for _, l := range explore.FormatTrace(x.Trace) {
 			fmt.Println(l)
 		}
